@@ -349,6 +349,11 @@ let run_line c kt (st : st) (line : string) (impl_line : string) : string =
               | Panic -> "panic model"
             in
             Printf.sprintf "%s %s vfy=- %s" head (show ()) (rec_obs c kt r'))
+    | "reset" ->
+        st.cur <- None;
+        Hashtbl.reset st.saved;
+        Hashtbl.reset st.keys;
+        "reset"
     | "save" -> (
         match st.cur with
         | Some r ->
@@ -360,6 +365,16 @@ let run_line c kt (st : st) (line : string) (impl_line : string) : string =
         | Some r ->
             st.cur <- Some r;
             "used"
+        | None -> "norec")
+    | "recode" -> (
+        match st.cur with
+        | Some r -> (
+            match decode c kt (encode r) with
+            | Ok (d, _) ->
+                Hashtbl.replace st.saved (int_of_string t.(1)) d;
+                "recoded"
+            | Err _ -> "err"
+            | Panic -> "panic model")
         | None -> "norec")
     | "show" -> ( match st.cur with Some r -> "rec " ^ rec_obs c kt r | None -> "norec")
     | "pair" -> (
